@@ -19,6 +19,11 @@ Three streams (DESIGN.md §6 C14):
       commit 0; then random sequences of programs back to back in one process (debug build:
       0xDD/0xCD poisoning makes stale reads visible): each result is compared with the same
       program's stand-alone result, programs recur within a sequence;
+  (b*) scripts identical in byte length and token offsets that differ in literal content (numbers,
+      strings, booleans, equal-length identifiers, or a single token), and scripts ending in
+      different host errors, run back to back through the replica with the source text placed as
+      the playground does (a heap string per call) and as `naija -` does (first allocation of the
+      re-initialised scratch arena): every run must equal its stand-alone run;
   (b') runs that consume standard input: sequences of reader programs (read_line k times) through
       the playground replica in ONE process whose standard input is a pipe set up by this driver
       — last line terminated or not, everything in one write or trickled, end of input seen at
@@ -1161,7 +1166,7 @@ def shrink_sequence(env, srcs):
 # ------------------------------------------------------------------------------------------
 # scripts of identical shape and length run back to back (edit a constant, press Run again)
 
-TOKEN_RE = re.compile(r'(?P<str>"(?:[^"\\]|\\.)*")|(?P<com>#[^\n]*)|(?P<num>\b\d+(?:\.\d+)?\b)|(?P<bool>\btrue (?=\S)|\bfalse\b)|(?P<id>\b[a-z]\d+\b)')
+TOKEN_RE = re.compile(r'(?P<str>"(?:[^"\\]|\\.)*")|(?P<com>#[^\n]*)|(?P<num>\b\d+(?:\.\d+)?\b)|(?P<bool>\btrue (?= )|\bfalse\b)|(?P<id>\b[a-z]\d+\b)')
 ID_MAP = str.maketrans("nsawbrfpiv", "ghjkltuqoe")
 
 
@@ -1204,9 +1209,16 @@ SHAPE_TEMPLATES = [
     'make s get "ada"\nshout(s add "chi")\nshout(s.len() add 40)\nshout("Bola is {s}")\n',
     'do f1(p1, p2) start\n    return p1 times 11 add p2\nend\nshout(f1(12, 13))\nshout(f1(24, 25) add 26)\n',
     'make a get [10, 20, 30]\na[1] get 44\nshout(a)\nshout(a[2] minus 15)\nmake w get ["ada", "chi", "obi"]\nshout(w.join("xy"))\n',
-    'make b get true and (31 pass 22)\nif to say (b) start\n    shout(51)\nend\nif not so start\n    shout(62)\nend\nshout(false or (14 na 14))\n',
+    'make b get true  and (31 pass 22)\nif to say (b) start\n    shout(51)\nend\nif not so start\n    shout(62)\nend\nshout(false or (14 na 14))\n',
     'make n get 12.5\nshout(n divide 2.5)\nshout((n add 17) mod 4)\nshout(to_string(99) add "zed")\n',
 ]
+
+
+def host_error_family():
+    """Scripts that end with different host errors (the message of the diagnostic comes from the
+    operating system): what one run reported must not colour what the next one reports."""
+    return ['make c get command("%s")\nmake r get c.run()\nshout(r.exit_code())\n' % p
+            for p in ("/nonexistent/prog", "/etc/hostname", "/tmp", "/nonexistent/dir/")]
 
 
 def stream_same_shape(env, progs, res):
@@ -1227,6 +1239,7 @@ def stream_same_shape(env, progs, res):
                     fam.append(v1)
         if len(fam) > 1:
             families.append(fam)
+    families.append(host_error_family())
     stats = {"families": len(families), "scripts": sum(len(f) for f in families), "runs": 0, "failed": 0}
     for mode in ("heap", "arena"):
         singles, idx = [], {}
@@ -1410,7 +1423,9 @@ def stream_stdin_runs(env, res):
 
     def one(ic):
         i, (text, cuts, hold, ks, style) = ic
-        srcs = [reader_program("r%d" % r, k, style) for r, k in enumerate(ks)]
+        # every fourth sequence runs ONE script text again and again (same script, different input left)
+        tags = ["r" if i % 4 == 1 else "r%d" % r for r in range(len(ks))]
+        srcs = [reader_program(tags[r], k, style) for r, k in enumerate(ks)]
         recs = run_wasm_stdin(env, "seq_%d" % i, srcs, text, cuts, hold)
         lines = split_oracle(text, sum(ks))
         problems = []
@@ -1420,7 +1435,7 @@ def stream_stdin_runs(env, res):
         j = 0
         for r, k in enumerate(ks):
             got = unhx(recs[r]["res"])
-            want = reader_expected("r%d" % r, k, lines[j:j + k])
+            want = reader_expected(tags[r], k, lines[j:j + k])
             if got != want:
                 problems.append("run %d of the process printed %r; the input not yet consumed at that point is %r, so it must print %r"
                                 % (r, got[-160:], remainder_after(text, j)[:80], want[-160:]))
@@ -1447,7 +1462,8 @@ def stream_stdin_runs(env, res):
             if sum(1 for f in res["failures"] if f.get("stream") == "stdin-run-sequences") < 4:
                 res["failures"].append({"key": "stdin-runs:" + common.chash("%r%r%r%r%s" % (text, cuts, hold, ks, style)),
                                         "stream": "stdin-run-sequences",
-                                        "case": {"stdin_hex": text.hex(), "cuts": cuts, "hold": hold, "reads_per_run": ks, "style": style},
+                                        "case": {"stdin_hex": text.hex(), "cuts": cuts, "hold": hold, "reads_per_run": ks, "style": style,
+                                                 "same_script": i % 4 == 1},
                                         "observed": problems[0]})
         elif sum(ks) > len(text.split(b"\n")) and len(ks) > 1:
             res["_nontrivial"].add("stdin:" + common.chash("%r%r%r" % (text, ks, cuts)))
@@ -1781,14 +1797,15 @@ def replay(env, payload):
     if case.get("stream") == "stdin-run-sequences":
         text = bytes.fromhex(inner["stdin_hex"])
         ks, style = inner["reads_per_run"], inner.get("style", "vars")
-        srcs = [reader_program("r%d" % r, k, style) for r, k in enumerate(ks)]
+        tags = ["r" if inner.get("same_script") else "r%d" % r for r in range(len(ks))]
+        srcs = [reader_program(tags[r], k, style) for r, k in enumerate(ks)]
         recs = run_wasm_stdin(env, "replay", srcs, text, inner.get("cuts"), inner.get("hold") or 0.0)
         lines = split_oracle(text, sum(ks))
         bad, j = recs is None or len(recs) != len(ks), 0
         print("standard input %r, cut at %s, reads per run %s" % (text[:200], inner.get("cuts"), ks))
         for r, k in enumerate(ks):
             got = unhx(recs[r]["res"]) if recs and r < len(recs) and recs[r].get("res") else None
-            want = reader_expected("r%d" % r, k, lines[j:j + k])
+            want = reader_expected(tags[r], k, lines[j:j + k])
             print("run %d: %r %s" % (r, got, "" if got == want else "  <-- expected %r" % want))
             bad = bad or got != want
             j += k
